@@ -50,13 +50,15 @@ type Plan struct {
 
 	BackendKeepAlive   bool
 	ExtraInjectors     []ExtraInjector
-	YieldInjector      bool // park every handler at an injector placed first
-	ParkInjector       bool // park every handler at an injector placed first until the drain phase
-	CancelAtStep       int  // >0: cancel the server context at that decision
-	Fences             bool // yield fences in readFrames / sendServeMsg are active
-	CaptureFences      bool // yield before every lock around the captured fingerprint data (serve loop)
-	BodyReadFences     bool // yield in noteBodyReadFromHandler (request body credit message)
-	WriteFences        bool // yield at the start of writeFrameAsync: a frame write stays in flight as long as the controller likes (stand-in for TCP back-pressure)
+	ExtraInjectorsLate bool   // append them to HTTPHandler.HeaderInjectors after construction instead of passing them to the constructor
+	YieldInjector      bool   // park every handler at an injector placed first
+	ParkInjector       bool   // park every handler at an injector placed first until the drain phase
+	CancelAtStep       int    // >0: cancel the server context at that decision
+	Fences             bool   // yield fences in readFrames / sendServeMsg are active
+	CaptureFences      bool   // yield before every lock around the captured fingerprint data (serve loop)
+	BodyReadFences     bool   // yield in noteBodyReadFromHandler (request body credit message)
+	WriteFences        bool   // yield at the start of writeFrameAsync: a frame write stays in flight as long as the controller likes (stand-in for TCP back-pressure)
+	H2DecoderTableSize uint32 // > 0: proxyserver.Server.HTTP2Server.MaxDecoderHeaderTableSize
 	CancelBeforeServe  bool
 	SchedKind          string // "", "rr", "priority", "random": write scheduler installed through NewWriteScheduler
 	SchedCfg           *http2.PriorityWriteSchedulerConfig
@@ -404,8 +406,10 @@ func NewWorld(t testingT, plan *Plan) *World {
 			inj = append(inj, &panicInjector{w: w, at: n})
 		}
 		inj = append(inj, fingerproxy.DefaultHeaderInjectors()...)
-		for _, e := range plan.ExtraInjectors {
-			inj = append(inj, &extraInjector{e})
+		if !plan.ExtraInjectorsLate {
+			for _, e := range plan.ExtraInjectors {
+				inj = append(inj, &extraInjector{e})
+			}
 		}
 		return inj
 	}
@@ -413,8 +417,26 @@ func NewWorld(t testingT, plan *Plan) *World {
 	w.ctx, w.Cancel = context.WithCancel(context.Background())
 	args := append([]string{"-forward-url", "http://" + backendAddr}, plan.Args...)
 	srv, err := fingerproxy.VerifBuild(w.ctx, args)
+	w.Srv = srv
+	if err == nil && plan.H2DecoderTableSize > 0 {
+		// a library user's setting (no flag reaches it): the HPACK table size the HTTP/2 server
+		// advertises and accepts
+		srv.HTTP2Server.MaxDecoderHeaderTableSize = plan.H2DecoderTableSize
+	}
 	if err != nil {
 		panic(fmt.Sprintf("VerifBuild: %v", err))
+	}
+	if plan.ExtraInjectorsLate {
+		// the other way a library user adds custom injectors: appending to the handler's
+		// exported HeaderInjectors field after it has been constructed
+		if h, ok := srv.HTTPServer.Handler.(*reverseproxy.HTTPHandler); ok {
+			for _, e := range plan.ExtraInjectors {
+				h.HeaderInjectors = append(h.HeaderInjectors, &extraInjector{e})
+			}
+			w.Probes["custom_injectors_appended_after_construction"]++
+		} else {
+			panic(fmt.Sprintf("HARNESS: the server's handler is %T, not *reverseproxy.HTTPHandler", srv.HTTPServer.Handler))
+		}
 	}
 	w.Srv = srv
 	if !plan.NoTagWrap {
